@@ -134,6 +134,7 @@ def _c13():
         ("R-DISC-SIB", "both connection-removal sites perform the same clean-up set (blocking, pub/sub, monitor)", rules_block.rule_disc_sib),
         ("R-BLK-TIMEOUTS", "the timeout pass scans every registry on every call; it may skip the scan only under a cached deadline all of whose writes are derived from the blocked clients' deadlines (no reset that forgets later deadlines)", rules_block.rule_timeout_scan),
         ("R-BLK-FOREVER", "behind BLPOP/BRPOP every Duration built from the parsed timeout is reachable only through a non-zero test of that number (every spelling of zero means no deadline; path-sensitive)", rules_block.rule_forever),
+        ("R-BLK-PIPELINE", "the loop executing the frames of one read stops (defers the rest) once a frame has left the connection blocked: nothing pipelined behind a blocking pop runs while the client is blocked", rules_block.rule_pipeline),
         ("R-BLK-EOF", "blocked connections are not excluded from reading (disconnect detection)", rules_block.rule_eof),
         ("R-BLK-UNREGALL", "unregistering a client removes every entry it has in a key's queue (retain, or a removal inside a loop that searches again)", rules_block.rule_unreg_all),
         ("R-BLK-FIFO", "a key's waiter queue is appended at the back, served from the front and otherwise edited only by order-preserving operations", rules_block.rule_fifo),
